@@ -878,3 +878,128 @@ def rule_R4f(ctx, rep, config="c-lib"):
                     rep.violation("R4f", key, "%s writes %s bytes into %s of %d bytes" % (i.callee, ("up to %d" % b) if b is not None else "an unbounded number of", name, size),
                                   where=i.where(), witness=[i.where()])
     rep.floor("R4f", "writes into fixed-size character buffers", n, 3)
+
+
+# ---- R4g: an element access behind a growth-on-demand is inside what the growth ensured ------------------------------------------
+
+def _vlo_growths(f):
+    """growth sites `free += (X - len) * S' of a variable length object: (store, container text, ensured element count X as a linear form, S)"""
+    from ..expr import lin as _l, Lin as _L
+    out = []
+    for s in f.all_insts():
+        if s.op != "store" or not (resolve_addr(f, s.ops[1]).last_field() or "").endswith("vlo_t.vlo_free"):
+            continue
+        v = f.inst(strip_casts(f, s.ops[0]))
+        if v is None or v.op != "getelementptr" or len(v.d["path"]) != 1 or "ptr" not in v.d["path"][0]:
+            continue
+        base = _l(f, v.d["base"], 0, 2)
+        fa = [a for a in base.t if a.endswith(".vlo_t.vlo_free]")]
+        if len(fa) != 1 or len(base.t) != 1 or base.c != 0:
+            continue
+        cont = fa[0][2:-len(".vlo_t.vlo_free]")]
+        amt = _l(f, v.d["path"][0]["ptr"], 0, 2)
+        for at, k in amt.t.items():
+            m = re.match(r"div\((.*),(\d+)\)$", at)
+            if not m or k >= 0:
+                continue
+            S = int(m.group(2))
+            if m.group(1) == "L[%s.vlo_t.vlo_free] + -1*L[%s.vlo_t.vlo_start]" % (cont, cont) and k == -S:
+                E = amt.add(_L(0, {at: S})).div(S)
+                if E is not None:
+                    out.append((s, cont, E, S))
+    return out
+
+
+def _vlo_accesses(f):
+    """element accesses BEGIN (vlo)[i]: (instruction, container text, index linear form, element size)"""
+    from ..expr import lin as _l
+    out = []
+    for i in f.all_insts():
+        if i.op not in ("load", "store"):
+            continue
+        pa = resolve_addr(f, i.ops[1] if i.op == "store" else i.ops[0])
+        if pa.root[0] != "val" or not pa.steps or pa.steps[-1][0] not in ("ptr", "idx") or pa.fields():
+            continue
+        rl = _l(f, pa.root[1], 0, 2)
+        ri = f.inst(strip_casts(f, pa.root[1]))
+        if ri is not None and ri.op == "phi":
+            # a cached start pointer merged from several loads of the same object's start
+            ins = set(repr(_l(f, v_, 0, 2)) for (v_, _) in ri.d["incoming"] if v_.get("k") != "undef")
+            if len(ins) == 1:
+                rl = _l(f, [v_ for (v_, _) in ri.d["incoming"] if v_.get("k") != "undef"][0], 0, 2)
+        if len(rl.t) != 1 or rl.c != 0 or list(rl.t.values()) != [1]:
+            continue
+        at = list(rl.t)[0]
+        if not at.endswith(".vlo_t.vlo_start]"):
+            continue
+        cont = at[2:-len(".vlo_t.vlo_start]")]
+        es = None
+        for st in pa.steps:
+            if st[0] == "cast":
+                m = re.match(r"(i\d+|.*\*)\*$", st[1])
+                if st[1].startswith("i") and st[1].endswith("*") and st[1][1:-1].isdigit():
+                    es = int(st[1][1:-1]) // 8
+                elif st[1].endswith("**"):
+                    es = 8
+        out.append((i, cont, _l(f, pa.steps[-1][1], 0, 2), es))
+    return out
+
+
+def rule_R4g(ctx, rep, config="c-lib"):
+    rep.rule("R4g", "an element access BEGIN (vlo)[i] that follows a growth-on-demand of the same variable length object -- `free += (X - len) * S', inline or in a helper "
+                    "whose ensured element count is a parameter -- has an index inside what the growth ensured: X - i >= 1 as linear forms over the same values (the "
+                    "length is a multiple of the element size by construction); helpers are summarised by the count they ensure and instantiated at their call sites")
+    from ..expr import lin as _l, Lin as _L
+    p = ctx.prog(config)
+    n = 0
+    summaries = {}
+    fs = [f for f in p.m.defined() if not f.module or f.module.startswith("yaep.")]
+    for f in fs:
+        for (s, cont, E, S) in _vlo_growths(f):
+            if cont == "(a0)" and all(re.match(r"a\d+$", a) for a in E.t):
+                summaries[f.name] = (E, S)
+    for f in fs:
+        ens = [(s, cont, E, S, s) for (s, cont, E, S) in _vlo_growths(f)]
+        for c in f.calls():
+            if c.callee in summaries and c.callee != f.name and c.args:
+                E0, S = summaries[c.callee]
+                E = _L(E0.c)
+                for a, k in E0.t.items():
+                    E = E.add(_l(f, c.args[int(a[1:])], 0, 2), k)
+                al = _l(f, c.args[0], 0, 2)
+                # the container: the object the first argument points to
+                from ..expr import addr_str
+                cont = "(" + repr(al) + ")" if not (len(al.t) == 1 and al.c == 0) else None
+                try:
+                    cont = addr_str(f, c.args[0], 0, 2)
+                except Exception:
+                    pass
+                ens.append((c, cont, E, S, c))
+        if not ens:
+            continue
+        acc = _vlo_accesses(f)
+        for (g_, cont, E, S, anchor) in ens:
+            for (a, acont, I, es) in acc:
+                if acont != cont or (es is not None and es != S):
+                    continue
+                # behind the growth: the test that guards the growth (or the call) dominates the access, and the access is not part of the growth's own block
+                if anchor.is_call():
+                    if not f.inst_dominates(anchor, a):
+                        continue
+                else:
+                    from .r14 import path_exists
+                    if not path_exists(f, anchor, a, []) or path_exists(f, a, anchor, []):
+                        continue
+                d = E.add(I, -1)
+                if not d.is_const():
+                    continue
+                n += 1
+                rep.cover(p, [f.name])
+                key = "%s/%s[%r]#%d" % (f.name, cont[-40:], I, n)
+                if d.c >= 1:
+                    rep.ok("R4g", key, sample={"access": a.where(), "ensured": repr(E), "index": repr(I)})
+                else:
+                    rep.violation("R4g", key, "the object is grown to hold %r elements (%s) and then accessed at index %r: the element is %d behind the end -- a write "
+                                  "behind the block as soon as the length reaches the allocated size" % (E, g_.where(), I, 1 - d.c), where=a.where(),
+                                  witness=[g_.where(), a.where()])
+    rep.floor("R4g", "element accesses behind a growth-on-demand", n, 2)
